@@ -251,6 +251,7 @@ class Ctx:
         self.solver_calls = 0
         self.depth = 0
         self.side_unknown = []
+        self._pending = []
         self.record_smt = record_smt
         self.ghost = {}
         self.notes = []
@@ -290,7 +291,10 @@ class Ctx:
         self.inputs[label] = c
         self.input_meta[label] = "int"
         v = SInt(c, lo, hi)
-        self.pc_add(z3.And(c >= sym.bvv(lo), c <= sym.bvv(hi)))
+        # range facts are batched and handed to the solver before its next query
+        e = z3.And(c >= sym.bvv(lo), c <= sym.bvv(hi))
+        self.pc.append(e)
+        self._pending.append(e)
         return v
 
     def input_bool(self, label):
@@ -324,6 +328,9 @@ class Ctx:
         sym.refine_from(e)
 
     def _check(self, *extra):
+        if self._pending:
+            self.solver.add(*self._pending)
+            self._pending = []
         t0 = time.time()
         r = self.solver.check(*extra)
         self.solver_time += time.time() - t0
